@@ -635,15 +635,16 @@ func (fx *c18Fx) buildMatrixCase(c c18Cfg) (enc []byte, hasTS bool) {
 }
 
 type c18Case struct {
-	Kind       string   `json:"kind"` // matrix | edit
-	Cfg        *c18Cfg  `json:"cfg,omitempty"`
-	Orig       string   `json:"orig,omitempty"`
-	Edit       string   `json:"edit,omitempty"`
-	Candidate  string   `json:"candidate_b64"`
-	Original   string   `json:"original_b64,omitempty"`
-	Trusted    []string `json:"trusted_b64"`
-	Predefined []string `json:"predefined_b64"`
-	Stored     []string `json:"stored_b64"`
+	Kind       string       `json:"kind"` // matrix | edit | history
+	Cfg        *c18Cfg      `json:"cfg,omitempty"`
+	Hist       *c18HistCase `json:"history,omitempty"`
+	Orig       string       `json:"orig,omitempty"`
+	Edit       string       `json:"edit,omitempty"`
+	Candidate  string       `json:"candidate_b64"`
+	Original   string       `json:"original_b64,omitempty"`
+	Trusted    []string     `json:"trusted_b64"`
+	Predefined []string     `json:"predefined_b64"`
+	Stored     []string     `json:"stored_b64"`
 }
 
 func c18RunMatrixCase(db *asserts.Database, c c18Cfg, enc []byte, hasTS bool) (v *c18Verdict, want bool, why string) {
@@ -929,6 +930,7 @@ func c18MakeOrig(name string, enc []byte) *c18Orig {
 // ---- the test ----
 
 func TestVerifC18(t *testing.T) {
+	c18EnsureTestBinaryName()
 	r := eng.Start("C18", "exploration", 90*time.Second, 14*time.Minute)
 	r.Assume("reference predicate c18Ref transcribed from the statement (earliest-time mode: a key is acceptable if it can be valid at some time >= earliest)",
 		"the harness' own splitter (last blank line), base64 layer and raw OpenPGP signer (golang.org/x/crypto/openpgp/packet) define 'signed content' and 'decoded signature'",
@@ -938,6 +940,13 @@ func TestVerifC18(t *testing.T) {
 		var c c18Case
 		if err := json.Unmarshal(rc, &c); err != nil {
 			eng.HarnessError("C18 replay: %v", err)
+		}
+		if c.Kind == "history" {
+			if c.Hist == nil {
+				eng.HarnessError("C18 replay: history case without history")
+			}
+			c18ReplayHistory(r, *c.Hist, c)
+			r.Finish("replay")
 		}
 		db := c18Open(c18Decs(c.Trusted), c18Decs(c.Predefined), c18Decs(c.Stored))
 		cand, _ := base64.StdEncoding.DecodeString(c.Candidate)
@@ -1024,6 +1033,9 @@ func TestVerifC18(t *testing.T) {
 	r.Add("matrix_cases", matrixCases)
 	r.Add("matrix_accepted", matrixAccepted)
 	r.Add("matrix_reference_rejects", matrixRejectWanted)
+
+	// ---- part 3: key history (see verif_c18_hist_test.go; parallel over databases, one clock point at a time) ----
+	hst := c18RunHistories(r, fx, &overReject)
 
 	// ---- part 2: edits (parallel; fixed clock inside every validity) ----
 	restore := asserts.MockTimeNow(c18Mid)
@@ -1118,10 +1130,11 @@ func TestVerifC18(t *testing.T) {
 	r.Add("edits_accepted_benign", editAccepted)
 	r.Add("edits_rejected", editRejected)
 	r.Add("edits_accepted_signature_framing_only", editFraming)
-	r.Add("evaluations", matrixCases+editCases)
+	r.Add("evaluations", matrixCases+editCases+hst.cases)
 	// non-trivial: matrix cases the reference rejects (each must be refused by the real code) + edits that change
 	// signed content or decoded signature (each must be refused)
-	r.Add("distinct_nontrivial", matrixRejectWanted+editRejected)
+	// + key history cases the newest stored revision of the key rejects
+	r.Add("distinct_nontrivial", matrixRejectWanted+editRejected+hst.refRejects)
 	r.Info("bounds", bounds)
 
 	if r.NumViolations() == 0 && len(overReject) > 0 {
@@ -1131,7 +1144,7 @@ func TestVerifC18(t *testing.T) {
 		}
 		eng.HarnessError("C18: %d cases that the reference accepts were rejected (the property is 'accepted only if', so this is not a violation, but the check would be vacuous): %s", n, strings.Join(overReject, " || "))
 	}
-	r.Finish("matrix: every (type, signer, timestamp point, clock point, earliest mode); edits: for every original, every byte position x {substitution values, deletion, truncation, insertions, transposition}, every decoded-signature byte x {bit flips | all values, deletion, insertions}, every header line swap/duplication/drop, signature re-encodings, splices; distinct_nontrivial = matrix cases the reference rejects + edit cases refused because content or decoded signature changed")
+	r.Finish("matrix: every (type, signer, timestamp point, clock point, earliest mode); key history: every sequence of 1..3 revisions of the signing account-key (each revision: validity shape x constraints shape) x backstore kind x placement of the newest revision x clock point x mode x candidate (type, timestamp point); edits: for every original, every byte position x {substitution values, deletion, truncation, insertions, transposition}, every decoded-signature byte x {bit flips | all values, deletion, insertions}, every header line swap/duplication/drop, signature re-encodings, splices; distinct_nontrivial = matrix cases the reference rejects + key history cases the newest key revision rejects + edit cases refused because content or decoded signature changed")
 }
 
 var c18reSignKey = regexp.MustCompile(`(?m)^sign-key-sha3-384: (.*)$`)
